@@ -7,4 +7,6 @@ namespace Orbit
 
 theorem gen_logQuery_order : Gen.logQueryOrder = Order.logQuery := by decide
 
+theorem gen_logGet_order : Gen.logGetOrder = Order.logGet := by decide
+
 end Orbit
